@@ -4,6 +4,30 @@ store, clean Stop, reopen, several stop/reopen cycles; the projection before the
 import json, re
 import vf, aoflib, fsrec
 
+def concurrent_writers(ck):
+    """the writer loop of the store takes mutations from a queue: with several goroutines writing, rejected appends (the same child from
+    several goroutines) and accepted mutations wait in it together; after a clean stop and reopen the store must hold what it held"""
+    b = ck.build("kvconc")
+    recs = [x for x in ck.drive(b, ["restart", "12" if ck.thorough else "4", "4", "aof"], timeout=900) if "restart" in x]
+    if not recs:
+        raise vf.Infra("kvconc restart recorded nothing")
+    for x in recs:
+        ck.count(("concurrent", x["restart"]), True)
+        if x.get("reopen_err"):
+            ck.violation("C21:reopen-fails:concurrent-writers", "reopen after a clean stop fails after histories of concurrent writers: %s" % x["reopen_err"], None)
+            continue
+        diff = {k: [x["pre"][k], x["post"].get(k)] for k in x["pre"] if x["pre"][k] != x["post"].get(k)}
+        if diff:
+            k = sorted(diff)[0]
+            ck.violation("C21:restart-changes-data:concurrent-writers",
+                         "after histories of 4 concurrently writing goroutines (conflicting appends, puts, removals, deletes), a clean stop and a reopen, "
+                         "%d of %d keys differ, e.g. key %s held %s before the stop and %s after the reopen"
+                         % (len(diff), x["keys"], k, json.dumps(diff[k][0]), json.dumps(diff[k][1])), None)
+    ck.traces += len(recs)
+    ck.extra["stop_reopen_cycles_after_concurrent_writers"] = len(recs)
+    ck.extra["keys_compared_after_concurrent_writers"] = sum(x.get("keys", 0) for x in recs)
+
+
 def run(ck):
     b = ck.build("aof")
     ck.tlc("AOF", aoflib.mc_cfg(aoflib.CODE_SKIP_CONFLICT, 3 if not ck.thorough else 4, invs="CleanRestart", maxcrash=2, children='{"c"}'))
@@ -41,6 +65,9 @@ def run(ck):
             elif kind == "REOPENED" and st != last:
                 ck.violation("C21:restart-changes-data", "after clean stop and reopen the store holds %s, before the stop %s; history %s, cycles at %s"
                              % (json.dumps(st), json.dumps(last), json.dumps([a["m"] for a in h["att"]]), cut), h)
+    if ck.replay is None:
+        concurrent_writers(ck)
     ck.traces += len(hs)
     ck.rule = ("TLC-generated histories of 7 mutations (>= 60% with a rejected append) + 3 directed ones, split at seeded points into 1-3 "
-               "stop/reopen cycles on the real store; non-trivial = contains a rejected mutation or more than one cycle; distinct = (history, cut points)")
+               "stop/reopen cycles on the real store; plus stop/reopen cycles after histories of 4 goroutines writing concurrently (the same child appended by "
+               "several of them, puts, removals, deletes: rejected and accepted mutations queue up together); non-trivial = contains a rejected mutation or more than one cycle; distinct = (history, cut points)")
